@@ -612,7 +612,10 @@ struct Exec {
 		// (same: keep evaluating)
 
 		// ---- postconditions P*
-		if(eff.expect_no_alloc && (ev[E_ALLOC] != 0 || ev[E_DEALLOC] != 0)) fail("P-allocated", eff.variant + " performed " + std::to_string(ev[E_ALLOC]) + " allocation(s) and " + std::to_string(ev[E_DEALLOC]) + " deallocation(s); it needs no new storage");
+		// a load whose stream was cut may legitimately read other extents than were saved (a number cut short still parses:
+		// "10" becomes "1") and resize: "needs no new storage" is only known for the stream as it was written
+		bool const cut_load = op.kind == O_LOAD && fired;
+		if(eff.expect_no_alloc && !cut_load && (ev[E_ALLOC] != 0 || ev[E_DEALLOC] != 0)) fail("P-allocated", eff.variant + " performed " + std::to_string(ev[E_ALLOC]) + " allocation(s) and " + std::to_string(ev[E_DEALLOC]) + " deallocation(s); it needs no new storage");
 		if(eff.expect_no_elem_events && !threw) {
 			int const n = ev[E_DCTOR] + ev[E_CCTOR] + ev[E_MCTOR] + ev[E_CASSIGN] + ev[E_MASSIGN] + ev[E_CONV] + ev[E_DTOR];
 			if(n != 0) fail("P-element-events", eff.variant + " caused " + std::to_string(n) + " element construction/assignment/destruction event(s); it must not touch elements");
